@@ -137,7 +137,7 @@ func C12(tier common.Tier) int {
 			mix := e1.UseMix{TestOnly: true, Allow: 4}
 			var alpha []e1.UseBlock
 			for encl := e1.UEPlain; encl < e1.UseEncl(len(e1.UseEnclNames)); encl++ {
-				if encl <= e1.UEPkgVar {
+				if encl.HasBody() {
 					for _, c := range core {
 						alpha = append(alpha, e1.UseBlock{Encl: encl, Stmts: []int{c, core[0]}})
 					}
@@ -181,7 +181,11 @@ func C12(tier common.Tier) int {
 						return
 					}
 					for _, b := range alpha {
-						rec(append(append([]e1.UseBlock(nil), h...), b))
+						nh := append(append([]e1.UseBlock(nil), h...), b)
+						if !e1.ValidUseHistory(nh) {
+							continue
+						}
+						rec(nh)
 					}
 				}
 				rec(nil)
